@@ -3,6 +3,7 @@ package h
 import (
 	"context"
 	"sync"
+	"time"
 
 	openfgav1 "github.com/openfga/api/proto/openfga/v1"
 
@@ -21,6 +22,9 @@ type CancelDS struct {
 	fire      func()
 	Triggered bool
 	Reads     int
+	// Jitter, when set, delays every read event by a pseudo-random duration so that the
+	// completion order of concurrent sub-problems varies from request to request.
+	Jitter func() time.Duration
 }
 
 func NewCancelDS(inner storage.OpenFGADatastore) *CancelDS { return &CancelDS{OpenFGADatastore: inner} }
@@ -39,6 +43,15 @@ func (d *CancelDS) Disarm() (triggered bool, seen int) {
 }
 
 func (d *CancelDS) hit() {
+	d.mu.Lock()
+	var delay time.Duration
+	if d.Jitter != nil {
+		delay = d.Jitter()
+	}
+	d.mu.Unlock()
+	if delay > 0 {
+		time.Sleep(delay)
+	}
 	d.mu.Lock()
 	d.Reads++
 	var f func()
